@@ -199,6 +199,9 @@ func SeqCmd(args []string) {
 				typ, in["title"] = "SetTitleInput", fmt.Sprintf("title %d", k1)
 			case "setTitleEmpty":
 				field, typ, in["title"] = "setTitle", "SetTitleInput", "   "
+			case "addCommentMissingFile":
+				field, typ = "addComment", "AddCommentInput"
+				in["message"], in["files"] = fmt.Sprintf("message %d", k1), []string{"0123456789abcdef0123456789abcdef01234567"}
 			case "unknownBug":
 				field, typ = "addComment", "AddCommentInput"
 				in["prefix"], in["message"] = "ffffffffffff", fmt.Sprintf("message %d", k1)
